@@ -425,9 +425,51 @@ def tight_stack_budget_scenario(h: Harness, rng):
                 break
 
 
+def node_valued_dependencies_scenario(h: Harness, rng):
+    """a Dependent refinement that depends on a plain value AND on a node (an eq-dataclass instance): what a genotype maps to does not depend
+    on which genotype was mapped just before it -- several genotypes mapped in one order, then in another, the same program each time
+    (and the dependent value inside the range its own siblings dictate)"""
+    import ctxgrammar
+    from linear import DSGE, GE, SGE, safe
+    g = ctxgrammar.registers_grammar()
+    for trial in range(h.n(6, 50)):
+        r = NativeRandomSource(rng.randrange(10**6))
+        reps = [("GE", GE(g, synth.make_decider("grow", 3, r, g), gene_length=48)), ("SGE", SGE(g, synth.make_decider("grow", 3, r, g), gene_length=24)),
+                ("DynamicSGE", DSGE(g, 3))]
+        for name, rep in reps:
+            genos = []
+            for _ in range(8):
+                st, ge = safe(lambda: rep.create_genotype(r))
+                if st == "ok":
+                    genos.append(ge)
+            first = {}
+            for j, ge in enumerate(genos):
+                st, p = safe(lambda: rep.genotype_to_phenotype(ge))
+                first[j] = (st, repr(p), p)
+            order = list(range(len(genos)))
+            rng.shuffle(order)
+            h.count(f"node-valued-dependencies:{name}", len(genos))
+            h.seen(f"node-deps:{name}:{trial}", nontrivial=len(genos) >= 2)
+            for j in order:
+                st, p = safe(lambda: rep.genotype_to_phenotype(genos[j]))
+                if (st, repr(p)) != first[j][:2]:
+                    h.fail(f"{name}.genotype_to_phenotype", "same-genotype-different-program",
+                           f"grammar with a Dependent on (a bool, a node): genotype #{j} mapped to {first[j][1][:90]} the first time and to {repr(p)[:90]} when the "
+                           f"genotypes were mapped again in the order {order}", [name, trial, j])
+                    break
+                if st == "ok":
+                    bad = ctxgrammar.register_violations(p)
+                    if bad:
+                        h.fail(f"{name}.genotype_to_phenotype", "same-genotype-different-program",
+                               f"grammar with a Dependent on (a bool, a node): re-mapping genotype #{j} gave {bad[0]} -- a refinement built for ANOTHER program's "
+                               f"siblings", [name, trial, j, "range"])
+                        break
+
+
 def run(h: Harness):
     rng = h.rng
     tight_stack_budget_scenario(h, rng)
+    node_valued_dependencies_scenario(h, rng)
     decider_state_scenario(h, rng)
     persistent_handler_scenario(h, rng)
     short_lived_genotypes_scenario(h, rng)
